@@ -60,3 +60,27 @@ Definition xmonitors (a : acase) (v : list Z) : list (N * bool) :=
   | 402%N => [(17%N, mon_derived v)]
   | _ => amonitors a v
   end.
+
+(* ---- 410: census rows (C04).  [cfg]: 0 none, 1 alloc, 2 alloc+align_offset+track_caller, 3 all stable sound ---- *)
+From BM Require Import Model.LangOracle Model.TraitSolver.
+Definition rules_of (cfg : N) : list rule :=
+  match cfg with 0%N => Tables.rules_none | 1%N => Tables.rules_alloc | 2%N => Tables.rules_aat | _ => Tables.rules_all end.
+
+Definition census_markers : list string :=
+  ["Pod"; "Zeroable"; "NoUninit"; "AnyBitPattern"; "CheckedBitPattern"; "PodInOption"; "ZeroableInOption"].
+
+Definition cmodel (cfg : N) (t : tyx) : list Z := map (fun m => zb (impl_holds (rules_of cfg) m t)) census_markers.
+
+(* C04 on one census row: every marker the compiler reports for the type is one whose contract the
+   language guarantees for it, and the marker lattice is respected *)
+Definition cmonitor (t : tyx) (v : list Z) : bool :=
+  let f := ground_facts t in
+  let has (i : nat) := (nthz i v =? 1)%Z in
+  let imp (a b : bool) := negb a || b in
+  allb (fun im => let '(i, m) := im in imp (has i) (contractb m f))
+       (combine (seq 0 7) census_markers) &&
+  imp (has 0%nat) (has 1%nat && has 2%nat && has 3%nat) && imp (has 3%nat) (has 1%nat && has 4%nat).
+
+(* C20 on two census rows of the same type under a smaller and a larger feature set: nothing is lost *)
+Definition cmonotone (small large : list Z) : bool :=
+  allb (fun i => negb (nthz i small =? 1)%Z || (nthz i large =? 1)%Z) (seq 0 7).
